@@ -80,6 +80,8 @@ package client
 // entry, never a mixture.
 //@ func (*client.Cache).getEntry(c, spn) (e, ok)
 //@   acquires c.mux
+//@   sets lastEntryStart := e.StartTime
+//@   sets lastEntryEnd := e.EndTime
 //@   pure
 //@   trusted_frame lock state only
 //@   ensures ok <==> atlock(present(c.Entries, spn))
@@ -148,3 +150,34 @@ package client
 //@   ensures !tcp_only(cl) && !udp_first(cl, b) && lastTCPErr == nil ==> err == nil && sendUDPCalls == old(sendUDPCalls)
 //@   ensures !tcp_only(cl) && !udp_first(cl, b) && is_krberr(lastTCPErr) ==> same_code(err, lastTCPErr) && sendUDPCalls == old(sendUDPCalls)
 //@   ensures !tcp_only(cl) && !udp_first(cl, b) && lastTCPErr != nil && !is_krberr(lastTCPErr) ==> sendUDPCalls - old(sendUDPCalls) == 1 && (lastUDPErr == nil <==> err == nil) && (is_krberr(lastUDPErr) ==> same_code(err, lastUDPErr))
+
+// ---- property C10: cached tickets are served only inside their validity, sessions record what the KDC issued.
+// A cache hit without renewal is the entry stored under the SPN (ticket and key of one entry), and the first clock
+// reading lies strictly after its start time and the second strictly before its end time.
+//@ ghost lastEntryStart Time
+//@ ghost lastEntryEnd Time
+//@ ghost ticketRenewed bool
+//@ func (*client.Client).renewTicket(cl, e) (r, err)
+//@   sets ticketRenewed := true
+//@ func (*client.Client).GetCachedTicket(cl, spn) (tkt, key, ok)
+//@   requires !ticketRenewed
+//@   havocs lastEntryStart, lastEntryEnd, ticketRenewed
+//@   ensures ok && !ticketRenewed ==> (now#1).After(lastEntryStart) && (now#2).Before(lastEntryEnd)
+
+// A renewed TGT replaces every field of the session with what the KDC issued in the reply.
+//@ func (*client.session).update(s, tgt, dep)
+//@   acquires s.mux
+//@   modifies *s
+//@   trusted_frame the session object only
+//@   ensures s.authTime == dep.AuthTime && s.endTime == dep.EndTime && s.renewTill == dep.RenewTill && s.tgt == tgt && s.sessionKey == dep.Key && s.sessionKeyExpiration == dep.KeyExpiration
+
+// A TGT session is used without refreshing it only while more than a sixth of its lifetime remains at the clock
+// reading taken under the session's lock; otherwise it is renewed or the client logs in again.
+//@ ghost sessionRefreshed bool
+//@ func (*client.Client).refreshSession(cl, s) (renewed, err)
+//@   sets sessionRefreshed := true
+//@ func (*client.Client).realmLogin(cl, realm) (err)
+//@   sets sessionRefreshed := true
+//@ func (*client.Client).ensureValidSession(cl, realm) (err)
+//@   requires !sessionRefreshed
+//@   havocs sessionRefreshed
